@@ -9,6 +9,7 @@ import (
 	"strings"
 	"sync"
 
+	"github.com/AdguardTeam/golibs/logutil/slogutil"
 	"github.com/AdguardTeam/golibs/netutil/httputil"
 )
 
@@ -69,12 +70,14 @@ type capHandler struct {
 	mu    *sync.Mutex
 	attrs []slog.Attr
 	recs  *[]string
+	min   slog.Level // records below it are not enabled (the zero value admits Info and above)
+	useMin bool
 }
 
-func (h capHandler) Enabled(context.Context, slog.Level) bool { return true }
+func (h capHandler) Enabled(_ context.Context, l slog.Level) bool { return !h.useMin || l >= h.min }
 func (h capHandler) WithGroup(string) slog.Handler            { return h }
 func (h capHandler) WithAttrs(as []slog.Attr) slog.Handler {
-	return capHandler{mu: h.mu, attrs: append(slices.Clone(h.attrs), as...), recs: h.recs}
+	return capHandler{mu: h.mu, attrs: append(slices.Clone(h.attrs), as...), recs: h.recs, min: h.min, useMin: h.useMin}
 }
 func (h capHandler) Handle(_ context.Context, r slog.Record) error {
 	var sb strings.Builder
@@ -128,7 +131,47 @@ func execLogMw(args []string) string {
 	return strings.Join(out, " ;; ")
 }
 
+// logmwlvl: args = middleware level, logger threshold, "method,host,uri,raddr".  The wrapped handler logs
+// one ERROR record through the logger it finds in the request context.  Whatever the two levels are, that
+// logger carries the request's host, method, raddr and request_uri; the middleware's own two records
+// appear iff its level is enabled.
+func execLogMwLvl(args []string) string {
+	var mu sync.Mutex
+	var recs []string
+	l := slog.New(capHandler{mu: &mu, recs: &recs, min: slog.Level(Atoi(args[1])), useMin: true})
+	mw := httputil.NewLogMiddleware(l, slog.Level(Atoi(args[0])))
+	f := strings.Split(args[2], ",")
+	method, host, uri, raddr := f[0], f[1], f[2], f[3]
+	inner := http.HandlerFunc(func(w http.ResponseWriter, r *http.Request) {
+		if cl, ok := slogutil.LoggerFromContext(r.Context()); ok {
+			cl.Error("inner")
+		} else {
+			mu.Lock()
+			recs = append(recs, "inner NO-CONTEXT-LOGGER")
+			mu.Unlock()
+		}
+	})
+	req := httptest.NewRequest(method, "http://"+host+uri, nil)
+	req.RemoteAddr = raddr
+	req.RequestURI = uri
+	mw.Wrap(inner).ServeHTTP(&callRecorder{hdr: http.Header{}}, req)
+	innerRec, others := "inner-record-missing", 0
+	for _, r := range recs {
+		if strings.HasPrefix(r, "inner") {
+			innerRec = r
+		} else {
+			others++
+		}
+	}
+	return innerRec + " mw=" + I(others)
+}
+
 func genC20(g *G) {
+	for _, mwl := range []int{-8, -4, 0, 4, 8} {
+		for _, thr := range []int{-8, -4, 0, 4, 8} {
+			g.Emit("logmwlvl", I(mwl), I(thr), "GET,h"+I(mwl+thr+20)+".example,/p?x="+I(thr)+",10.1.2.3:4"+I(mwl+10))
+		}
+	}
 	for n := 0; n <= 5; n++ {
 		ids := make([]string, n)
 		for i := range ids {
@@ -159,7 +202,7 @@ func genC20(g *G) {
 func init() {
 	properties["C20"] = &Property{
 		Gen:   genC20,
-		Exec:  map[string]Executor{"wrap": execWrap, "logmw": execLogMw},
+		Exec:  map[string]Executor{"wrap": execWrap, "logmw": execLogMw, "logmwlvl": execLogMwLvl},
 		Class: func(fn string, args []string, obs string) string { return fn },
 		Rule: "wrap: middleware lists of length 0..5 recording pre/post order; Wrap is called twice on the same caller-owned slice. logmw: 1..5 successive requests through one LogMiddleware (so pooled objects are reused) with distinct method/host/URI/remote address, handlers that write headers 0..2 times (incl. 1xx then final) and bodies; observed: what the inner handler sees, what the client receives, the 'started' and 'finished' records with the context logger's four attributes and the code. The concurrent interleavings are explored by the -race driver 'logmw' of cmd/conc. distinct=arguments",
 	}
